@@ -82,7 +82,7 @@ public:
     o << "{\"n_user\":" << inv->n_user << ",\"count_solns\":" << inv->count_solns
       << ",\"minimal\":" << inv->minimal << ",\"range\":" << inv->range << ",\"mp\":" << inv->mp
       << ",\"range_max\":" << hx(inv->range_max) << ",\"tolerance\":" << hx(inv->tolerance)
-      << ",\"mp_tolerance\":" << hx(inv->mp_tolerance) << ",\"toler\":" << hx(p->toler)
+      << ",\"mp_tolerance\":" << hx(inv->mp_tolerance) << ",\"toler\":" << hx(p->toler) << ",\"gfw_water\":" << hx(p->gfw_water)
       << ",\"water_uncertainty\":" << hx(inv->water_uncertainty) << ",\"mineral_water\":" << inv->mineral_water
       << ",\"carbon\":" << inv->carbon << ",\"count_redox_rxns\":" << inv->count_redox_rxns
       << ",\"n_isotopes\":" << inv->isotopes.size() << ",\"n_isotope_unknowns\":" << inv->isotope_unknowns.size();
@@ -112,7 +112,7 @@ public:
     o << "],\"elts\":[";
     for (size_t j = 0; j < inv->elts.size(); j++) {
       class master *m = inv->elts[j].master;
-      o << (j ? "," : "") << "{\"name\":" << jstr(m->elt->name) << ",\"row\":" << m->in
+      o << (j ? "," : "") << "{\"name\":" << jstr(m->elt->name) << ",\"species\":" << jstr(m->s->name) << ",\"row\":" << m->in
         << ",\"eminus\":" << (m->s == p->s_eminus ? 1 : 0) << ",\"z\":" << hx(m->s->z) << ",\"alk\":" << hx(m->s->alk)
         << ",\"primary\":" << (m->s->primary != NULL ? 1 : 0) << ",\"unc\":[";
       for (size_t i = 0; i < inv->elts[j].uncertainties.size(); i++) o << (i ? "," : "") << hx(inv->elts[j].uncertainties[i]);
